@@ -130,6 +130,8 @@ def _g1_clear(ctx, f):
     for n in f.walk():
         if n["k"] == "var" and n.get("init") is not None and is_call(strip_casts(n["init"]), "linecount"):
             n_ins = n["name"]
+        if n["k"] == "bin" and n["op"] == "=" and n["l"]["k"] == "ref" and is_call(strip_casts(n["r"]), "linecount"):
+            n_ins = n["l"]["name"]
     cleared = False
     for lp in f.walk():
         if lp["k"] != "for":
@@ -280,28 +282,53 @@ def rule_G2(ctx):
             ctx.ok("ec_glob", "lines beg+1 .. end-1 are marked, the visit starts at beg")
         elif okset is False:
             ctx.inconclusive("ec_glob", "lines of the range are marked", "marking loop not recognised")
-    # set / get use the same bit
+    # set / get use the same bit, get clears what it returns: both evaluated abstractly on one
+    # mark cell for every level 1..7 and several cell contents (the spelling -- index or pointer
+    # form, a helper for the bit, |= or written out -- is free)
+    from ..absint import Interp, Unsupported, OverRead
     gs, gg = prog.func("lbuf_globset"), prog.func("lbuf_globget")
-
-    def bits(fn):
-        out = set()
-        p = {x["name"]: "$%d" % i for i, x in enumerate(fn.params)}
-        for n in fn.walk():
-            if n["k"] == "bin" and n["op"] == "<<":
-                out.add(key(n, p))
-        return out
-    bs, bg = bits(gs), bits(gg)
-    if bs and bs == bg and len(bs) == 1:
-        ctx.ok("lbuf_globset/lbuf_globget", "same bit expression %s" % sorted(bs))
+    bad = None
+    n_eval = 0
+    for dep in range(1, 8):
+        for cell0 in (0, 1 << dep, 0x7e & ~(1 << dep), 0x7e, 2 if dep != 1 else 4):
+            for pos in (0, 3):
+                lbm = {"ln_glob": {0: 0x55 & 0x7f, 3: 0x55 & 0x7f, pos: cell0}}
+                try:
+                    Interp(prog).call(gs, [lbm, pos, dep])
+                    after_set = lbm["ln_glob"].get(pos)
+                    got = Interp(prog).call(gg, [lbm, pos, dep])
+                    after_get = lbm["ln_glob"].get(pos)
+                except (Unsupported, OverRead) as e_:
+                    raise AnalysisBroken("lbuf_globset / lbuf_globget not evaluable: %s" % e_)
+                n_eval += 1
+                if not all(isinstance(x, int) for x in (after_set, after_get, got)):
+                    raise AnalysisBroken("lbuf_globset / lbuf_globget: mark cell not evaluable")
+                want_set = (cell0 | (1 << dep)) & 0xff
+                want_get = cell0 & ~(1 << dep) & 0xff
+                other = 3 - pos
+                if (after_set & 0xff) != want_set:
+                    bad = bad or ("lbuf_globset", "same mark bit", "level %d on a cell holding 0x%02x leaves 0x%02x, "
+                                  "expected 0x%02x" % (dep, cell0, after_set & 0xff, want_set))
+                elif got != 1 or (after_get & 0xff) != want_get:
+                    bad = bad or ("lbuf_globget", "visit once", "after the mark of level %d was set on a cell holding "
+                                  "0x%02x, reading it returns %s and leaves 0x%02x (expected 1 and 0x%02x): the mark is "
+                                  "not cleared when it is read, or another level's mark is" % (
+                                      dep, cell0, got, after_get & 0xff, want_get))
+                elif lbm["ln_glob"].get(other) != (0x55 & 0x7f):
+                    bad = bad or ("lbuf_globset", "same mark bit", "the cell of another line is changed")
+                # a second read finds the mark gone
+                try:
+                    again = Interp(prog).call(gg, [lbm, pos, dep])
+                except (Unsupported, OverRead) as e_:
+                    raise AnalysisBroken("lbuf_globget not evaluable: %s" % e_)
+                if again != 0 and not bad:
+                    bad = ("lbuf_globget", "visit once", "a second read of level %d still returns %s" % (dep, again))
+    if bad:
+        ctx.violation(bad[0], bad[1], bad[2])
     else:
-        ctx.violation("lbuf_globget", "same mark bit", "set uses %s, get uses %s" % (sorted(bs), sorted(bg)))
-    # get clears what it returns
-    clr = [n for n, lv, op, rhs in stores(gg.body) if op == "&=" and lv_field(lv) and lv_field(lv)[1] == "ln_glob"]
-    if clr:
+        ctx.ok("lbuf_globset/lbuf_globget", "set raises exactly the level's bit, get returns it and clears exactly it "
+               "(%d evaluations)" % n_eval)
         ctx.ok("lbuf_globget", "returns and clears the mark")
-    else:
-        ctx.violation("lbuf_globget", "visit once", "the mark is not cleared when it is read: a "
-                      "line could be visited twice")
 
 
 # ----------------------------------------------------------------------------------------
